@@ -264,3 +264,18 @@ pub fn orders(n: usize) -> Vec<Vec<usize>> {
     }
     out
 }
+
+/// Stable class name of a panic: source file + slug of the message (line numbers shift with
+/// unrelated edits; the line is reported in the text).
+pub fn panic_class(location: &str, msg: &str) -> String {
+    let file = location.rsplit('/').next().unwrap_or(location).split(':').next().unwrap_or("");
+    let mut slug = String::new();
+    for c in msg.chars().take(60) {
+        if c.is_ascii_alphanumeric() {
+            slug.push(c.to_ascii_lowercase());
+        } else if !slug.ends_with('-') {
+            slug.push('-');
+        }
+    }
+    format!("panic@{file}:{}", slug.trim_matches('-'))
+}
